@@ -15,6 +15,7 @@ STRINGS = ["x", "", "a b", "<&>\"'", "é ü", "tab\there", "line\nbreak", "\U00
 
 
 SAME_RESOURCE_MOVES = False  # set by checks whose domain excludes moves between resources
+PREFER_INTERLEAVED = 0.0     # probability of picking an owner whose list members are interleaved with other child kinds
 
 
 class Relation(t.NamedTuple):
@@ -28,6 +29,13 @@ class Relation(t.NamedTuple):
 
     def key(self) -> str:
         return f"{type(self.owner).__name__}.{self.attr}[{self.kind}]"
+
+    @property
+    def contain(self) -> bool:
+        """members are child elements of the owner (DirectProxy and subclasses, RoleTag)"""
+        from capellambse.model import _descriptors as D
+
+        return isinstance(self.acc, (D.DirectProxyAccessor, D.RoleTagAccessor))
 
 
 def discover(model, rng: random.Random, max_objs: int = 400) -> list[Relation]:
@@ -55,6 +63,23 @@ def candidates_for(model, rel: Relation, rng: random.Random, n: int = 8) -> list
 
 
 _NESTED_CACHE: dict = {}
+
+
+_INTER_CACHE: dict = {}
+_HANDLES: dict = {}
+
+
+def is_interleaved(rel: Relation) -> bool:
+    """members of the list do not form one block at the end of the owner's children"""
+    try:
+        members = {id(x._element) for x in rel.get()}
+    except Exception:
+        return False
+    kids = [id(c) for c in rel.owner._element]
+    pos = [i for i, k in enumerate(kids) if k in members]
+    if len(pos) < 2:
+        return False
+    return (max(pos) - min(pos) + 1 != len(pos)) or max(pos) != len(kids) - 1
 
 
 def nested_slots(rel: Relation) -> list[tuple[str, str]]:
@@ -141,13 +166,21 @@ def gen_step(model, rels: list[Relation], rng: random.Random, weights: dict[str,
         w.update(weights)
     for _ in range(50):
         rel = rng.choice(rels)
+        if PREFER_INTERLEAVED and rng.random() < PREFER_INTERLEAVED:
+            key = id(rels)
+            if key not in _INTER_CACHE:
+                _INTER_CACHE.clear()
+                _INTER_CACHE[key] = [r for r in rels if r.contain and is_interleaved(r)]
+            inter = [r for r in _INTER_CACHE[key] if is_interleaved(r)] if len(_INTER_CACHE[key]) < 30 else _INTER_CACHE[key]
+            if inter:
+                rel = rng.choice(inter)
         try:
             lst = rel.get()
         except Exception:
             continue
         n = len(lst)
         op = rng.choices(list(w), list(w.values()))[0]
-        if op == "create" and rel.kind in CONTAIN:
+        if op == "create" and rel.contain:
             name = rng.choice(STRINGS)
             kw = {"name": name}
             want = None
@@ -159,13 +192,13 @@ def gen_step(model, rels: list[Relation], rng: random.Random, weights: dict[str,
                 kw["no_such_attribute_xyz"] = 1
             return Step("create", rel, {"kw": {k: v for k, v in kw.items()}, "bad": bad},
                         lambda lst=lst, kw=kw: lst.create(**kw))
-        if op == "create_clash" and rel.kind in CONTAIN:
+        if op == "create_clash" and rel.contain:
             objs = ol.all_objects(model)
             clash = rng.choice(objs).uuid
             return Step("create_clash", rel, {"kw": {"name": "clash", "uuid": clash}, "bad": True},
                         lambda lst=lst, clash=clash: lst.create(name="clash", uuid=clash))
         if op == "create_nested":
-            cands = [r for r in rels if r.kind in CONTAIN and nested_slots(r)]
+            cands = [r for r in rels if r.contain and nested_slots(r)]
             if not cands:
                 continue
             rel = rng.choice(cands)
@@ -185,7 +218,7 @@ def gen_step(model, rels: list[Relation], rng: random.Random, weights: dict[str,
                         lambda lst=lst, kw=kw: lst.create(**kw))
         if op == "role_set":
             # (re)assign a single-valued role attribute with a NewObject, possibly of another class than the current one
-            cands = [r for r in rels if r.kind in CONTAIN and nested_slots(r)]
+            cands = [r for r in rels if r.contain and nested_slots(r)]
             if not cands:
                 continue
             r2 = rng.choice(cands)
@@ -221,7 +254,7 @@ def gen_step(model, rels: list[Relation], rng: random.Random, weights: dict[str,
                 continue
             parent = tgt.parent
             for r in discover_for(model, parent):
-                if r.kind not in CONTAIN:
+                if not r.contain:
                     continue
                 try:
                     l2 = r.get()
@@ -238,7 +271,7 @@ def gen_step(model, rels: list[Relation], rng: random.Random, weights: dict[str,
             x = lst[rng.randrange(n)]
             return Step("remove", rel, {"uuid": getattr(x, "uuid", None)}, lambda lst=lst, x=x: lst.remove(x))
         if op in ("insert", "append", "setitem"):
-            if rel.kind in CONTAIN:
+            if rel.contain:
                 # move an existing object from a sibling relation of the same accessor
                 others = [r for r in rels if r.acc is rel.acc and r.owner is not rel.owner]
                 src = None
@@ -270,6 +303,20 @@ def gen_step(model, rels: list[Relation], rng: random.Random, weights: dict[str,
                 if not cands:
                     continue
                 x = rng.choice(cands)
+            # sometimes operate through a list object fetched earlier (a second, outdated handle)
+            hkey = (id(rel.owner._element), rel.attr)
+            stale = _HANDLES.get(hkey)
+            _HANDLES[hkey] = lst
+            use_stale = stale is not None and not rel.contain and rng.random() < 0.35
+            if use_stale and op in ("append", "insert"):
+                x2 = None
+                fresh_members = [m for m in lst if m not in stale]
+                if fresh_members and rng.random() < 0.7:
+                    x2 = rng.choice(fresh_members)   # added through another handle meanwhile
+                if x2 is not None:
+                    x = x2
+                return Step("append", rel, {"uuid": getattr(x, "uuid", None), "stale_handle": True},
+                            lambda stale=stale, x=x: stale.append(x))
             if op == "append":
                 return Step("append", rel, {"uuid": getattr(x, "uuid", None)}, lambda lst=lst, x=x: lst.append(x))
             if op == "insert":
